@@ -6,6 +6,7 @@ import Driver.Timer
 import Driver.Locks
 import Driver.Reader
 import Driver.Conc
+import Driver.Expr
 /-!
 The model driver: one request per line on stdin, one reply per line on stdout.
 `<family> <op> <args…>`; payload strings are hex encoded.  Unknown or malformed requests answer
@@ -23,6 +24,7 @@ def dispatch (line : String) : String :=
   | "reader" :: rest => Driver.Reader.handle rest
   | "queue" :: rest => Driver.Conc.handleQueue rest
   | "route" :: rest => Driver.Conc.handleRoute rest
+  | "expr" :: rest => Driver.Expr.handle rest
   | ["ping"] => "pong"
   | _ => "bad-op"
 
